@@ -73,8 +73,11 @@ func c15BasePlan() *Plan {
 		Event: &model.Event{Name: "Sync", Type: "event", Inputs: []model.Input{
 			{Name: "who", Type: "address", Indexed: true, Column: "c_who2"},
 			{Name: "note", Type: "string", Column: "c_note2"},
-		}}}
-	dep2.Table = model.Table{Name: "t_dep", Columns: []model.Col{{Name: "c_who2", Type: "bytea"}, {Name: "c_note2", Type: "text"}},
+		}},
+		// an automatically required field spelled out by the user: its
+		// block[].column is a string position like any other
+		Block: []model.Field{{Name: "block_num", Column: "block_num"}}}
+	dep2.Table = model.Table{Name: "t_dep", Columns: []model.Col{{Name: "c_who2", Type: "bytea"}, {Name: "c_note2", Type: "text"}, {Name: "block_num", Type: "numeric"}},
 		Unique: [][]string{{"ig_name", "src_name", "block_num", "tx_idx", "log_idx", "abi_idx"}}, Index: [][]string{{"c_who2"}, {"c_note2"}}}
 	// a disabled integration: it runs no task, but its table is still
 	// created at start-up, so its strings are positions too
